@@ -40,6 +40,8 @@ def strat_model(draw, families=("bs", "hem", "merton", "vg", "cgmy")):
         y = {"y<0": draw(_f(-1.0, -0.1)), "y=0": 0.0, "0<y<1": draw(_f(0.1, 0.9)), "y=1": 1.0, "1<y<2": draw(_f(1.1, 1.8))}[br]
         p = {"c": draw(_f(0.05, 3.0)), "g": draw(_f(3.0, 30.0)), "m": draw(_f(3.0, 30.0)), "y": y}
     spec = {"family": fam, "params": p, "exp": {"spot": draw(_f(5.0, 300.0)), "r": draw(_f(0.0, 0.08)), "d": draw(_f(0.0, 0.06))}}
+    if draw(st.integers(0, 5)) == 0:
+        spec["spot_moved"] = draw(st.sampled_from([0.5, 0.8, 1.25, 3.0]))  # built at another spot, spot assigned afterwards
     if fam != "bs" and draw(st.integers(0, 3)) == 0:
         spec["route"] = "updated"  # parameters assigned one by one, then initialisation() (what a calibration does)
     return spec
@@ -370,7 +372,8 @@ def body_cross(case):
 
 
 def classify_cross(case):
-    return [case["kind"], branch_of(case["model"])] + (["long-dated-low-volatility"] if case["T"] >= 10 else []), True
+    return [case["kind"], branch_of(case["model"])] + (["long-dated-low-volatility"] if case["T"] >= 10 else []) + \
+        (["spot-assigned-after-construction"] if case["model"].get("spot_moved") else []), True
 
 
 # ------------------------------------------------------------------------------------ one pricer object, many calls
